@@ -82,6 +82,8 @@ Section Proofs.
       destruct d; cbn; rewrite ?E; [|reflexivity].
       destruct (is_area k); cbn; rewrite ?E; [|reflexivity].
       destruct ca; cbn; rewrite ?E; reflexivity.
+    - destruct (has_volume k) eqn:E; cbn; rewrite ?E; reflexivity.
+    - destruct (has_volume k) eqn:E; cbn; rewrite ?E; reflexivity.
   Qed.
 
   Lemma fresh_coherent a : Coherent (freshf a).
@@ -138,6 +140,8 @@ Section Proofs.
     - destruct (has_volume (kd _ _ _ _ _ s)); cbn; [|reflexivity].
       destruct (dt _ _ _ _ _ s); cbn; [|reflexivity]. destruct Ha as [-> | ->]; reflexivity.
     - destruct Hs as [-> | ->]; reflexivity.
+    - destruct (has_volume (kd _ _ _ _ _ s)); reflexivity.
+    - destruct (has_volume (kd _ _ _ _ _ s)); reflexivity.
   Qed.
 
   (* after ANY history from a fresh object, every observation (volume included) is that of a fresh
